@@ -1,9 +1,10 @@
 /-
   C18 — chordal decomposition and its reversal preserve the problem and its solution.
 
-  Property theorems about the model in `ClarabelModel/Chordal/{AugStd,Reverse,AugCompact}`.
+  Property theorems about the model in `ClarabelModel/Chordal/{AugStd,Reverse,AugCompact,
+  AugCompactFull,PsdCompletion,InfoAccessors}`.
   Proofs and helper lemmas: `ClarabelProofs/Lemmas/Chordal{Decomp,StdBlocks,ValidTree,Compact*,
-  ReverseCompact*,Completion}.lean`.
+  ReverseCompact*,Completion*,FromAnalysis,Roundtrip,ForestFlow,SepNonempty,InfoAccessors}.lean`.
   Classes: [S] structural (holds of the f64 code as it runs), [F] exact in any ring/field.
 
   Carried by theorems:
@@ -43,15 +44,28 @@
     equalities, original lengths);
   * the hypotheses are C17's conclusions: `valid_pattern_of_clique_tree` (`ValidCliqueTree` with
     more than one clique ⇒ `ValidPattern`, `StdPatternOK`, coverage), `decomposition_of_analysis_*`
-    (output of `SparsityPattern::new`, strategies `none` / `parent_child`), `hypotheses_of_analysis`
-    (`StdOK`, `ValidInfo`), `compact_hyp_of_analysis` (`CompactHyp`);
+    and `decomposition_of_analysis` (output of `SparsityPattern::new`, ALL THREE merge strategies
+    `none` / `parent_child` / `clique_graph`), `hypotheses_of_analysis` (`StdOK`, `ValidInfo`),
+    `compact_hyp_of_analysis` (`CompactHyp`), and the end-to-end statements `standard_of_analysis`,
+    `compact_of_analysis` (patterns from the analysis + well-formed data ⇒ no panic, equivalence,
+    round trip);
   * the completion recurrence: `completion_step_values`, `completion_recurrence` (IF the LAPACK /
     BLAS step returns `Wηα · Y` with `Y` satisfying its contract THEN `Wην = Wηα Y = (Wνη)ᵀ` holds on
-    the completed matrix for every clique).
+    the completed matrix for every clique);
+  * no clique below the root has an empty separator in a tree produced by the analysis (all three
+    strategies; `analysis_separator_nonempty`, `completion_separator_nonempty`: connectivity of the
+    filled pattern — `connect_graph` — + coverage + running intersection), so `psd_complete` never
+    hands a `0 × 0` block to LAPACK; `empty_separator_only_if_disconnected` shows what validity
+    alone permits;
+  * the accessors and helpers of `chordal_info.rs` / `decomp/*.rs` that the older model inlines or
+    leaves out (`ClarabelModel/Chordal/InfoAccessors.lean`, section "accessors and helpers" below):
+    the cone counters and the four numbers of the chordal block of the configuration header,
+    `largest_nblk`, `find_A_dimension`, `find_H_col_dimension`, `alternating_sequence`,
+    `extra_columns`, `get_rows_mat`, `decompose_with_cone`, `number_of_overlaps_in_rows`,
+    `find_aggregate_sparsity_mask`, `find_sparsity_patterns`, `ChordalInfo::new`.
 
   NOT carried by a theorem (checked on every run by the correspondence with the model and
-  by the oracles of `harness/src/bin/c18.rs`): the clique-graph merge strategy is covered by
-  C17's validity oracle only (no `decomposition_of_analysis` theorem for it); that the completion
+  by the oracles of `harness/src/bin/c18.rs`): that the completion
   formula yields a positive semidefinite matrix is the Grone–Johnson–Sá–Wolkowicz theorem, which is
   ASSUMED (cited), not proved here, and the numerical contracts of LAPACK's Cholesky / SVD solve
   are hypotheses; the cone membership part of the equivalence (`S_K ⪰ 0` for all `K` ⇔ `S` has a
@@ -69,6 +83,8 @@ import ClarabelProofs.Lemmas.ChordalFromAnalysis
 import ClarabelProofs.Lemmas.ChordalRoundtrip
 import ClarabelProofs.Lemmas.ChordalCompactConverse
 import ClarabelProofs.Lemmas.ChordalCompletionRecurrence
+import ClarabelProofs.Lemmas.ChordalSepNonempty
+import ClarabelProofs.Lemmas.ChordalInfoAccessors
 
 namespace Clarabel.C18
 open Clarabel Clarabel.Chordal Clarabel.Chordal.ChordalInfo
@@ -779,8 +795,9 @@ example : ∃ B, psdComplete (α := Nat) (fun _ _ => .ok (fun _ => 7)) #[1, 2, 0
 
 /-! ## C18's hypotheses are C17's conclusions (`ClarabelProofs/Lemmas/ChordalFromAnalysis.lean`)
 
-C17 proves that `SparsityPattern::new` (strategies `none`, `parent_child`) returns a tree satisfying
-`ValidCliqueTree` (`C17.analysis_none_valid`, `C17.analysis_parent_child_valid`).  The theorems of
+C17 proves that `SparsityPattern::new` (strategies `none`, `parent_child`, `clique_graph`) returns a
+tree satisfying `ValidCliqueTree` (`C17.analysis_none_valid`, `C17.analysis_parent_child_valid`,
+`C17.analysis_clique_graph_valid`).  The theorems of
 this section turn that conclusion into the hypotheses used above: `ValidPattern` / `ValidInfo`
 (compact form, reversal, completion), `StdPatternOK` / `StdOK` (standard form) and coverage. -/
 
@@ -842,8 +859,8 @@ example : exPathL.Filled ∧ (#[2, 0, 1] : Array Nat).toList.Perm (List.range ex
     LPat.edgesInB_sound exPathL #[2, 0, 1] [(0, 1), (1, 2)] (by decide)⟩
 
 /-- [S] `hypotheses_of_analysis`: if every stored pattern of the `ChordalInfo` is an analysis
-result (`FromAnalysis ci E`: output of `SparsityPattern::new` with strategy `none` or
-`parent_child` on a filled pattern with a permutation ordering, more than one clique, for a PSD
+result (`FromAnalysis ci E`: output of `SparsityPattern::new` with strategy `none`,
+`parent_child` or `clique_graph` on a filled pattern with a permutation ordering, more than one clique, for a PSD
 cone of the pattern's dimension, `E c` = pattern entries of cone `c`, all entries of the filled
 pattern) then `ci.StdOK` — the hypothesis of `H_no_panic`, `standard_blocks`,
 `standard_equiv_blocks`, `reverse_standard_blocks` —, `ValidInfo ci` — the pattern part of
@@ -902,7 +919,8 @@ example : ∃ tf ord', sparsityPatternNew exPathL #[2, 0, 1] "none" = .ok (tf, o
     have : (#[(⟨tf, ord', 0⟩ : SPattern)])[0]? = some ⟨tf, ord', 0⟩ := rfl
     rw [this] at hk; exact (Option.some.inj hk).symm
   subst hp
-  exact ⟨hne, exPathL, #[2, 0, 1], "none", Or.inl rfl, hf, ho, he, h1, rfl⟩
+  exact ⟨hne, exPathL, #[2, 0, 1], "none", Or.inl rfl, hf, ho, he,
+    by rw [sparsityPatternNewAll_none]; exact h1, rfl⟩
 
 /-! ## the compact problem is EQUIVALENT to the original one
 (`ClarabelProofs/Lemmas/ChordalCompactConverse.lean`, `ChordalForestFlow.lean`, `ChordalRoundtrip.lean`) -/
@@ -1161,5 +1179,498 @@ example (p : SPattern) (h : ValidPattern p) (A : Array Int)
 completed entry is `W[(2,0)] = W[(0,2)] = 4 · 2` -/
 example : psdComplete (α := Int) (productExt exPattern.sntree 3) #[1, 2, 0, 2, 3, 4, 0, 4, 5] 3 exPattern =
     .ok #[1, 2, 8, 2, 3, 4, 8, 4, 5] := by decide
+
+/-! ## all three merge strategies (`none`, `parent_child`, `clique_graph`)
+
+C17's `analysis_clique_graph_valid` closes the last strategy: every theorem of this file whose
+hypotheses are `ValidPattern` / `ValidInfo` / `StdOK` / `CompactHyp` / `FromAnalysis` now applies to
+the output of `SparsityPattern::new` whatever `chordal_decomposition_merge_method` is. -/
+
+/-- [S] `decomposition_of_analysis` (strategy `clique_graph`): for a filled pattern `L`, a
+permutation `ordering` and pattern entries inside `L`, `SparsityPattern::new(L, ordering,
+"clique_graph")` — reduced clique graph, merge loop, Kruskal's maximum-weight spanning tree,
+`post_process_merge`, `reorder_snode_consecutively`, `calculate_block_dimensions` — returns without
+panic a tree that, whenever it is stored (more than one clique), satisfies every pattern hypothesis
+of the theorems of this file (the SAME conclusion as for `none` / `parent_child`). -/
+theorem decomposition_of_analysis_clique_graph {L : LPat} (h : L.Filled) (ordering : Array Nat)
+    (ho : ordering.toList.Perm (List.range L.n)) (edges : List (Nat × Nat))
+    (hedges : ∀ e ∈ edges, ∃ a b, a < L.n ∧ b < L.n ∧ ordering[a]? = some e.1 ∧
+        ordering[b]? = some e.2 ∧ (b ∈ L.col a ∨ a ∈ L.col b)) (oi : Nat) :
+    ∃ tf ord', sparsityPatternNewCG L ordering = .ok (tf, ord') ∧
+      (tf.nCliques ≠ 1 →
+        ValidPattern ⟨tf, ord', oi⟩ ∧ StdPatternOK ⟨tf, ord', oi⟩ L.n ∧ ord'.size = L.n ∧
+        ∀ e ∈ edges, ∃ i, i < tf.nCliques ∧
+          e.1 ∈ (⟨tf, ord', oi⟩ : SPattern).cliqueO i ∧ e.2 ∈ (⟨tf, ord', oi⟩ : SPattern).cliqueO i) :=
+  Clarabel.Chordal.decomposition_of_analysis_cg h ordering ho edges hedges oi
+
+/-- non-vacuity: the hypotheses are those of `decomposition_of_analysis_none` (path graph) -/
+example : ∃ tf ord', sparsityPatternNewCG exPathL #[2, 0, 1] = .ok (tf, ord') :=
+  let ⟨tf, ord', h, _⟩ := decomposition_of_analysis_clique_graph
+    ((LPat.filledB_iff _).1 (by decide) : exPathL.Filled) #[2, 0, 1] (by decide) [(0, 1), (1, 2)]
+    (LPat.edgesInB_sound exPathL #[2, 0, 1] [(0, 1), (1, 2)] (by decide)) 0
+  ⟨tf, ord', h⟩
+
+/-- [S] `decomposition_of_analysis` (EVERY strategy): `sparsityPatternNewAll L ordering mm` is
+`SparsityPattern::new(L, ordering, ·, mm)`; for each of the three accepted values of
+`chordal_decomposition_merge_method` it returns without panic and the stored tree satisfies every
+pattern hypothesis of this file. -/
+theorem decomposition_of_analysis {L : LPat} (h : L.Filled) (ordering : Array Nat)
+    (ho : ordering.toList.Perm (List.range L.n)) (edges : List (Nat × Nat))
+    (hedges : ∀ e ∈ edges, ∃ a b, a < L.n ∧ b < L.n ∧ ordering[a]? = some e.1 ∧
+        ordering[b]? = some e.2 ∧ (b ∈ L.col a ∨ a ∈ L.col b)) (oi : Nat) (mm : String)
+    (hmm : mm = "none" ∨ mm = "parent_child" ∨ mm = "clique_graph") :
+    ∃ tf ord', sparsityPatternNewAll L ordering mm = .ok (tf, ord') ∧
+      (tf.nCliques ≠ 1 →
+        ValidPattern ⟨tf, ord', oi⟩ ∧ StdPatternOK ⟨tf, ord', oi⟩ L.n ∧ ord'.size = L.n ∧
+        ∀ e ∈ edges, ∃ i, i < tf.nCliques ∧
+          e.1 ∈ (⟨tf, ord', oi⟩ : SPattern).cliqueO i ∧ e.2 ∈ (⟨tf, ord', oi⟩ : SPattern).cliqueO i) :=
+  Clarabel.Chordal.decomposition_of_analysis_all h ordering ho edges hedges oi mm hmm
+
+example : ∃ tf ord', sparsityPatternNewAll exPathL #[2, 0, 1] "clique_graph" = .ok (tf, ord') :=
+  let ⟨tf, ord', h, _⟩ := decomposition_of_analysis
+    ((LPat.filledB_iff _).1 (by decide) : exPathL.Filled) #[2, 0, 1] (by decide) [(0, 1), (1, 2)]
+    (LPat.edgesInB_sound exPathL #[2, 0, 1] [(0, 1), (1, 2)] (by decide)) 0 "clique_graph"
+    (.inr (.inr rfl))
+  ⟨tf, ord', h⟩
+
+/-- [F] `standard_of_analysis` (end to end, standard form, every merge strategy): if every stored
+pattern is an analysis result (`FromAnalysis`), `find_standard_H_and_cones` does not panic, every
+column of `H` has its `1` in a row `< rows`, and for every point `(x, y)`, slack `(s₀, s̃)` that
+satisfies the augmented equalities `[A H; 0 -I](x, y) + (s₀, s̃) = (b, 0)` (`ax` = `A x`),
+`decomp_reverse_standard` returns `(s, z)` of the original length with `y = s̃` and
+`A x + s = b` in every row. -/
+theorem standard_of_analysis [Ring α] [Div α] [LT α] [DecidableLT α] {ci : ChordalInfo}
+    {E : Nat → List (Nat × Nat)} (hA : FromAnalysis ci E) :
+    ∃ h, ci.findStandardHAndCones = .ok h ∧
+      (∀ j, j < h.HI.size → h.HI.getD j 0 < h.rows) ∧
+      ∀ (s0 st oldZ : Array α) (ax b y : Nat → α), s0.size = h.rows → st.size = h.lenH →
+        oldZ.size = h.rows + h.lenH →
+        ((∀ r, r < h.rows → ax r + blockSum (stdBlocks ci) 0 y r + 0 = b r) ∧
+          (∀ j, j < h.lenH → - y j + st.getD j 0 = 0)) →
+        ∃ s z : Array α, decompReverseStandard h h.rows (s0 ++ st) oldZ = .ok (s, z) ∧
+          s.size = h.rows ∧ z.size = h.rows ∧
+          (∀ j, j < h.lenH → y j = st.getD j 0) ∧
+          ∀ r, r < h.rows → ax r + s.getD r 0 = b r := by
+  have hci := (hypotheses_of_analysis hA).1
+  obtain ⟨h, hok, hlt, _⟩ := H_no_panic ci hci
+  refine ⟨h, hok, hlt, fun s0 st oldZ ax b y hs0 hst hZ haug => ?_⟩
+  obtain ⟨s, z, h1, h2, h3, h4, _, h6⟩ :=
+    standard_roundtrip ci h hok hci s0 st oldZ ax b y hs0 hst hZ haug
+  exact ⟨s, z, h1, h2, h3, h4, h6⟩
+
+open Classical in
+/-- [F] `compact_of_analysis` (end to end, compact form, every merge strategy): if every stored
+pattern is an analysis result (`FromAnalysis ci E`) and the data are well formed — `A` a CSC matrix
+with at least one column and one stored entry or overlap, every stored row of `A` and every
+non-zero of `b` lies in a cone, those inside a decomposed cone are pattern entries `E c` handed to
+the analysis, the cones fit into `m` rows — then `find_compact_A_b_and_cones` does not panic and
+* (⇐) every solution of the ORIGINAL equalities with `S = Σ_K E_Kᵀ S_K E_K` extends by overlap
+  variables to a solution of the compact equalities (`compact_equiv_converse`),
+* (⇒, round trip) every solution `(xx, old_s)` of the compact equalities is mapped by
+  `decomp_reverse_compact` (on the cone list / cone maps of the transformation) to `(s, z)` of the
+  original length `m` with `(A x)[r] + s[r] = b[r]` in every original row (`compact_roundtrip`). -/
+theorem compact_of_analysis [Ring α] [BEq α] {ci : ChordalInfo} {E : Nat → List (Nat × Nat)}
+    (hA : FromAnalysis ci E) (A : Csc α) (b : Array α) (wf : CscWF A) (ncols : 0 < A.n)
+    (rowsA : ∀ slot, slot < A.colptr.getD A.n 0 →
+      ∃ c, c < ci.initCones.size ∧ ci.rs c ≤ A.rowval.getD slot 0 ∧ A.rowval.getD slot 0 < ci.rs c + ci.nv c)
+    (rowsB : ∀ slot, slot < (bIndOf b).size →
+      ∃ c, c < ci.initCones.size ∧ ci.rs c ≤ (bIndOf b).getD slot 0 ∧ (bIndOf b).getD slot 0 < ci.rs c + ci.nv c)
+    (entA : ∀ slot, slot < A.colptr.getD A.n 0 → ∀ c, c < ci.initCones.size → (ci.patAt c).isSome →
+      ci.rs c ≤ A.rowval.getD slot 0 → A.rowval.getD slot 0 < ci.rs c + ci.nv c →
+      upperTriangularIndexToCoord (A.rowval.getD slot 0 - ci.rs c) ∈ E c)
+    (entB : ∀ slot, slot < (bIndOf b).size → ∀ c, c < ci.initCones.size → (ci.patAt c).isSome →
+      ci.rs c ≤ (bIndOf b).getD slot 0 → (bIndOf b).getD slot 0 < ci.rs c + ci.nv c →
+      upperTriangularIndexToCoord ((bIndOf b).getD slot 0 - ci.rs c) ∈ E c)
+    (hnz : A.colptr.getD A.n 0 ≤ A.nzval.size)
+    (hpos : A.colptr.getD A.n 0 + 2 * ci.ovBefore ci.initCones.size ≠ 0)
+    (hfit : ∀ c, c < ci.initCones.size → ci.rs c + ci.nv c ≤ ci.initDims.2) :
+    ∃ tr, findCompactTriplets ci A b = .ok tr ∧
+      (∀ (x st : Nat → α),
+        (∀ r,
+          (∑ k ∈ Finset.range (A.colptr.getD A.n 0),
+              if A.rowval.getD k 0 = r then A.nzval.getD k 0 * x (tr.AaJ.getD k 0) else 0) +
+            (∑ ρ ∈ Finset.range tr.dim, if OrigOf ci ρ r then st ρ else 0) =
+          ∑ k ∈ Finset.range tr.bInd.size, if tr.bInd.getD k 0 = r then tr.bVal.getD k 0 else 0) →
+        ∃ xx : Nat → α, (∀ j, j < A.n → xx j = x j) ∧
+          ∀ ρ, ρ < tr.dim →
+            (∑ k ∈ Finset.range tr.AaI.size,
+                if tr.AaI.getD k 0 = ρ then tr.AaV.getD k 0 * xx (tr.AaJ.getD k 0) else 0) + st ρ =
+            ∑ k ∈ Finset.range tr.bInd.size, if tr.baI.getD k 0 = ρ then tr.bVal.getD k 0 else 0) ∧
+      (∀ (xx : Nat → α) (oldS oldZ : Array α), tr.dim ≤ oldS.size → tr.dim ≤ oldZ.size →
+        (∀ ρ, ρ < tr.dim →
+          (∑ k ∈ Finset.range tr.AaI.size,
+              if tr.AaI.getD k 0 = ρ then tr.AaV.getD k 0 * xx (tr.AaJ.getD k 0) else 0) + oldS.getD ρ 0 =
+          ∑ k ∈ Finset.range tr.bInd.size, if tr.baI.getD k 0 = ρ then tr.bVal.getD k 0 else 0) →
+        ∃ s z, decompReverseCompact ci tr.coneMaps tr.conesNew oldS oldZ = .ok (s, z) ∧
+          s.size = ci.initDims.2 ∧ z.size = ci.initDims.2 ∧
+          ∀ r,
+            (∑ k ∈ Finset.range (A.colptr.getD A.n 0),
+                if A.rowval.getD k 0 = r then A.nzval.getD k 0 * xx (tr.AaJ.getD k 0) else 0) +
+              s.getD r 0 =
+            ∑ k ∈ Finset.range tr.bInd.size, if tr.bInd.getD k 0 = r then tr.bVal.getD k 0 else 0) := by
+  have H : CompactHyp ci A (bIndOf b) :=
+    compact_hyp_of_analysis hA A (bIndOf b) wf ncols (bIndOf_strict b) rowsA rowsB entA entB
+  obtain ⟨tr, h1, hconv⟩ := compact_equiv_converse ci A b H hnz hpos
+  obtain ⟨tr', h1', _, hrt⟩ := compact_roundtrip ci A b H hnz hpos hfit
+  rw [h1] at h1'
+  obtain rfl := Except.ok.inj h1'
+  exact ⟨tr, h1, hconv, hrt⟩
+
+/-- non-vacuity of `standard_of_analysis` / `compact_of_analysis`: `FromAnalysis` holds for the
+analysis result of the path graph under EACH of the three strategies as soon as that result has more
+than one clique (conditional for the reason given at `hypotheses_of_analysis`: the kernel cannot
+unfold the merge sort inside the analysis model; the driver evaluates it to two cliques) -/
+example (mm : String) (hmm : mm = "none" ∨ mm = "parent_child" ∨ mm = "clique_graph") :
+    ∃ tf ord', sparsityPatternNewAll exPathL #[2, 0, 1] mm = .ok (tf, ord') ∧
+    (tf.nCliques ≠ 1 →
+      FromAnalysis { initDims := (1, 6), initCones := #[.psd 3], spatterns := #[⟨tf, ord', 0⟩] }
+        (fun _ => [(0, 1), (1, 2)])) := by
+  have hf : exPathL.Filled := (LPat.filledB_iff _).1 (by decide)
+  have ho : (#[2, 0, 1] : Array Nat).toList.Perm (List.range exPathL.n) := by decide
+  have he := LPat.edgesInB_sound exPathL #[2, 0, 1] [(0, 1), (1, 2)] (by decide)
+  obtain ⟨tf, ord', h1, _⟩ := decomposition_of_analysis hf #[2, 0, 1] ho _ he 0 mm hmm
+  refine ⟨tf, ord', h1, fun hne k p hk => ?_⟩
+  have hk0 : k = 0 := by
+    rcases Nat.eq_zero_or_pos k with h | h
+    · exact h
+    · exfalso
+      have : (#[(⟨tf, ord', 0⟩ : SPattern)])[k]? = none := by
+        rw [Array.getElem?_eq_none]; simp; omega
+      rw [this] at hk; cases hk
+  subst hk0
+  have hp : p = ⟨tf, ord', 0⟩ := by
+    have : (#[(⟨tf, ord', 0⟩ : SPattern)])[0]? = some ⟨tf, ord', 0⟩ := rfl
+    rw [this] at hk; exact (Option.some.inj hk).symm
+  subst hp
+  exact ⟨hne, exPathL, #[2, 0, 1], mm, hmm, hf, ho, he, h1, rfl⟩
+
+/-- … and the data hypotheses of `compact_of_analysis` are those of `compact_rows` (`exHyp`) -/
+example : CscWF exA ∧ 0 < exA.n := ⟨exHyp.wf, exHyp.ncols⟩
+
+/-! ## no clique below the root has an empty separator
+(`ClarabelProofs/Lemmas/ChordalSepNonempty.lean`)
+
+`psd_complete` hands the blocks `Wαα` (`|α| × |α|`, `α` = separator of clique `j`) to LAPACK in
+every pass `j = n_cliques - 2, …, 0`; with `α = ∅` both `?potrf` and `?gesdd` reject `lda = 0` and
+`svd.factor(..).unwrap()` panics.  A valid clique tree alone does not exclude that
+(`exDiscTree` below: two isolated vertices); what excludes it is that the analysed graph is
+CONNECTED — `connect_graph` (`chordal_info.rs`) inserts an entry into every empty column of `L`, the
+clause `connected` of `LPat.Filled` — together with coverage and the running intersection
+property. -/
+
+/-- [S] `separator_nonempty_of_connected`: for a valid pattern whose cliques (sorted original
+coordinates) cover the entries `edges` of a graph that is connected on `0 .. N-1` (cut form: every
+non-empty proper subset of the vertices is left by some edge), every clique other than the root
+(post-order index `i < n_cliques - 1`) has a non-empty separator. -/
+theorem separator_nonempty_of_connected {p : SPattern} (hp : ValidPattern p)
+    (edges : List (Nat × Nat))
+    (hcov : ∀ e ∈ edges, ∃ i, i < p.sntree.nCliques ∧ e.1 ∈ p.cliqueO i ∧ e.2 ∈ p.cliqueO i)
+    (hconn : ∀ S : Nat → Prop, (∃ x, x < p.ordering.size ∧ S x) →
+        (∃ y, y < p.ordering.size ∧ ¬ S y) →
+        ∃ x y, (x, y) ∈ edges ∧ ((S x ∧ ¬ S y) ∨ (S y ∧ ¬ S x))) :
+    ∀ i, i + 1 < p.sntree.nCliques → p.sntree.sepAt i ≠ [] :=
+  hp.sep_ne_nil_of_connected edges hcov hconn
+
+/-- non-vacuity: the path `0 — 1 — 2` (`exPattern`); its clique 0 has the separator `{1}` -/
+example : exPattern.sntree.sepAt 0 = [1] := by decide
+
+/-- [S] `analysis_separator_nonempty`: for EVERY filled pattern `L` (connected: `connect_graph`),
+every permutation `ordering` and each of the three merge strategies, `SparsityPattern::new` returns
+a tree in which no clique other than the root has an empty separator; in the vocabulary of
+`psd_complete`: in every pass `j` of its main loop `get_separators(j)` returns (no panic) a
+non-empty `α`, so LAPACK is never handed a `0 × 0` block. -/
+theorem analysis_separator_nonempty {L : LPat} (h : L.Filled) (ordering : Array Nat)
+    (ho : ordering.toList.Perm (List.range L.n)) (mm : String)
+    (hmm : mm = "none" ∨ mm = "parent_child" ∨ mm = "clique_graph") :
+    ∃ tf ord', sparsityPatternNewAll L ordering mm = .ok (tf, ord') ∧
+      (∀ i, i + 1 < tf.nCliques → tf.sepAt i ≠ []) ∧
+      (∀ j, j + 1 < tf.nCliques → ∃ α, tf.getSeparators j = .ok α ∧ α.size ≠ 0) := by
+  obtain ⟨tf, ord', h1, h2⟩ := analysis_separators_nonempty h ordering ho mm hmm
+  obtain ⟨tf', ord'', h1', h3⟩ := analysis_getSeparators_nonempty h ordering ho mm hmm
+  rw [h1] at h1'
+  obtain ⟨rfl, rfl⟩ := Prod.mk.inj (Except.ok.inj h1')
+  exact ⟨tf, ord', h1, h2, h3⟩
+
+example (mm : String) (hmm : mm = "none" ∨ mm = "parent_child" ∨ mm = "clique_graph") :
+    ∃ tf ord', sparsityPatternNewAll exPathL #[2, 0, 1] mm = .ok (tf, ord') :=
+  let ⟨tf, ord', h, _⟩ := analysis_separator_nonempty
+    ((LPat.filledB_iff _).1 (by decide) : exPathL.Filled) #[2, 0, 1] (by decide) mm hmm
+  ⟨tf, ord', h⟩
+
+/-- [S] `completion_separator_nonempty`: the same for every stored pattern of a `ChordalInfo`
+built by the analysis (`FromAnalysis`, any strategy) — the patterns on which `psd_completion` runs
+`psd_complete`. -/
+theorem completion_separator_nonempty {ci : ChordalInfo} {E : Nat → List (Nat × Nat)}
+    (h : FromAnalysis ci E) (k : Nat) (p : SPattern) (hk : ci.spatterns[k]? = some p) :
+    (∀ i, i + 1 < p.sntree.nCliques → p.sntree.sepAt i ≠ []) ∧
+    (∀ j, j + 1 < p.sntree.nCliques → ∃ α, p.sntree.getSeparators j = .ok α ∧ α.size ≠ 0) :=
+  ⟨h.separators_nonempty k p hk, h.getSeparators_size_ne_zero k p hk⟩
+
+/-- [S] WHEN an empty separator below the root CAN occur: only on a tree that does not come from
+the analysis of a connected pattern.  `exDiscTree` — two isolated vertices, cliques `{0}`, `{1}` —
+satisfies `ValidTree` (validity knows nothing about connectivity), its clique 0 is not the root and
+has the separator `∅`; on it the index-level model of pass `0` of `psd_complete` does not panic and
+writes the two off-diagonal positions: the routine reaches the LAPACK calls with `0 × 0` blocks
+`Wαα`, `Wαν` (the data-level model leaves their outcome to its parameter `ext`; the implementation's
+`svd.factor(..).unwrap()` panics there — recorded in `ClarabelModel/Chordal/PsdCompletion.lean`, the
+harness counts such cliques on every analysed pattern: never seen). -/
+theorem empty_separator_only_if_disconnected :
+    ValidTree exDiscTree 2 ∧ 0 + 1 < exDiscTree.nCliques ∧ exDiscTree.sepAt 0 = [] ∧
+      exDiscTree.getSeparators 0 = .ok #[] ∧
+      psdCompleteStep exDiscTree 2 0 = .ok [(1, 0), (0, 1)] :=
+  ⟨exDiscTree_empty_sep.1, exDiscTree_empty_sep.2.1, exDiscTree_empty_sep.2.2,
+    exDiscTree_getSeparators, exDiscTree_step⟩
+
+/-! ## accessors and helpers of `chordal_info.rs` / `decomp/*.rs`
+(model `ClarabelModel/Chordal/InfoAccessors.lean`, proofs `ClarabelProofs/Lemmas/ChordalInfoAccessors.lean`)
+
+Functions that the older model files inline without a name or leave out, each compared with the
+implementation on its own channel (`info.counts`, `mask`, `info.new`, `helper.*`). -/
+
+/-- [S] `cone_counts`: the cone counters of a `ChordalInfo` whose patterns have at least one clique
+and one supernode slot each (in particular of every analysis result, `cone_counts_of_analysis`):
+no `usize` underflow, and the four numbers printed in the chordal block of the configuration header
+(`print_chordal_decomposition`; the record is the input of C20's model of the printer) are
+`PSD cones initial` = number of `PSDTriangleConeT` among the original cones,
+`decomposable` = number of stored patterns,
+`after decomposition` = initial + Σ over the patterns of (supernode slots − 1) (the tree before merging),
+`after merges` = initial + Σ over the patterns of (`n_cliques` − 1);
+`final_cone_count` = number of original cones + Σ (`n_cliques` − 1). -/
+theorem cone_counts (ci : ChordalInfo)
+    (h1 : ∀ p ∈ ci.spatterns.toList, 1 ≤ p.sntree.nCliques)
+    (h2 : ∀ p ∈ ci.spatterns.toList, 1 ≤ p.sntree.snode.size) :
+    ci.headerCounts = .ok
+      { initPsd := (ci.initCones.toList.filter Cone.isPsd).length,
+        decomposable := ci.spatterns.size,
+        premerge := (ci.initCones.toList.filter Cone.isPsd).length +
+          (ci.spatterns.toList.map (fun p => p.sntree.snode.size - 1)).sum,
+        final := (ci.initCones.toList.filter Cone.isPsd).length +
+          (ci.spatterns.toList.map (fun p => p.sntree.nCliques - 1)).sum } ∧
+    ci.finalPsdConesAdded = .ok ((ci.spatterns.toList.map (fun p => p.sntree.nCliques - 1)).sum) ∧
+    ci.premergePsdConesAdded = .ok ((ci.spatterns.toList.map (fun p => p.sntree.snode.size - 1)).sum) ∧
+    ci.finalConeCount =
+      .ok (ci.initCones.size + (ci.spatterns.toList.map (fun p => p.sntree.nCliques - 1)).sum) :=
+  ⟨ci.headerCounts_eq h1 h2, ci.finalPsdConesAdded_eq h1, ci.premergePsdConesAdded_eq h2,
+    ci.finalConeCount_eq h1⟩
+
+example : exCi.headerCounts = .ok { initPsd := 1, decomposable := 1, premerge := 2, final := 2 } := by
+  rfl
+
+/-- [S] `cone_counts_of_analysis`: the same on the result of the analysis (any merge strategy). -/
+theorem cone_counts_of_analysis {ci : ChordalInfo} {E : Nat → List (Nat × Nat)}
+    (h : FromAnalysis ci E) :
+    ci.headerCounts = .ok
+      { initPsd := (ci.initCones.toList.filter Cone.isPsd).length,
+        decomposable := ci.spatterns.size,
+        premerge := (ci.initCones.toList.filter Cone.isPsd).length +
+          (ci.spatterns.toList.map (fun p => p.sntree.snode.size - 1)).sum,
+        final := (ci.initCones.toList.filter Cone.isPsd).length +
+          (ci.spatterns.toList.map (fun p => p.sntree.nCliques - 1)).sum } ∧
+    ci.finalConeCount =
+      .ok (ci.initCones.size + (ci.spatterns.toList.map (fun p => p.sntree.nCliques - 1)).sum) :=
+  h.headerCounts_eq
+
+/-- [S] `final_cone_count_exact`: on valid input, when the loop over the cones consumes every stored
+pattern (true of every `ChordalInfo::new` result, `analysis_to_decomposition`), the capacity
+`final_cone_count()` reserved for `cones_new` / `cone_maps` is exactly the number of cones that
+`find_compact_A_b_and_cones` produces. -/
+theorem final_cone_count_exact [Neg α] [OfNat α 0] [OfNat α 1] [BEq α] (ci : ChordalInfo) (A : Csc α)
+    (b : Array α) (H : CompactHyp ci A (bIndOf b)) (hnz : A.colptr.getD A.n 0 ≤ A.nzval.size)
+    (hpos : A.colptr.getD A.n 0 + 2 * ci.ovBefore ci.initCones.size ≠ 0)
+    (hall : (ci.layoutAt ci.initCones.size).1 = ci.spatterns.size)
+    (h : ∀ p ∈ ci.spatterns.toList, 1 ≤ p.sntree.nCliques) :
+    ∃ tr, findCompactTriplets ci A b = .ok tr ∧ ci.finalConeCount = .ok tr.conesNew.size :=
+  finalConeCount_eq_triplets ci A b H hnz hpos hall h
+
+example : ∃ tr, findCompactTriplets exCi exA exb = .ok tr ∧ exCi.finalConeCount = .ok tr.conesNew.size :=
+  final_cone_count_exact exCi exA exb exHyp ex_hnz ex_hpos (by decide) (by decide)
+
+/-- [S] `largest_nblk_ok`: `largest_nblk` (the size of the clique buffer of
+`decomp_reverse_compact`; `nblk.as_ref().unwrap()` panics on a pattern without block sizes —
+`largestNblk_panic`) does not panic on an analysis result, bounds every block size of every
+pattern, and `decomp_reverse_compact` with the allocation is the model of `reverse_compact`. -/
+theorem largest_nblk_ok [Add α] [OfNat α 0] {ci : ChordalInfo} {E : Nat → List (Nat × Nat)}
+    (h : FromAnalysis ci E) (cm : Array ConeMapEntry) (oc : Array Cone) (s z : Array α) :
+    (∃ v, ci.largestNblk = .ok v ∧
+      ∀ p ∈ ci.spatterns.toList, ∀ nb, p.sntree.nblk = some nb → ∀ x ∈ nb.toList, x ≤ v) ∧
+    decompReverseCompactFull ci cm oc s z = decompReverseCompact ci cm oc s z :=
+  h.decompReverseCompactFull_eq cm oc s z
+
+example : ∃ v, exCi.largestNblk = .ok v ∧ v = 2 := ⟨2, rfl, rfl⟩
+
+/-- [S] `compact_setup_helpers`: `alternating_sequence`, `extra_columns` and `find_A_dimension`
+produce what `find_compact_A_b_and_cones` starts from: values `1` for the `nnz` entries of `A`
+followed by `(+1, -1)` per overlap, column indices `0` (overwritten by `findnz`) followed by the
+pair `n + o, n + o` for overlap `o`, and the dimensions `(dim, n + n_overlaps, n_overlaps)`. -/
+theorem compact_setup_helpers [Ring α] [BEq α] (ci : ChordalInfo) (A : Csc α) (b : Array α)
+    (tr : CompactTriplets α) (hok : findCompactTriplets ci A b = .ok tr) (nnz k : Nat)
+    (hpos : 0 < nnz + 2 * k) :
+    alternatingSequence (α := α) (nnz + 2 * k) nnz =
+      Array.replicate nnz 1 ++ ((List.range k).flatMap (fun _ => [(1 : α), -1])).toArray ∧
+    extraColumns (nnz + 2 * k) nnz A.n =
+      .ok (Array.replicate nnz 0 ++ ((List.range k).flatMap (fun o => [A.n + o, A.n + o])).toArray) ∧
+    ci.findADimension A = .ok (tr.dim, A.n + tr.nOverlaps, tr.nOverlaps) :=
+  ⟨alternatingSequence_eq_pairs nnz k, extraColumns_eq_pairs nnz k A.n hpos,
+    findADimension_of_triplets ci A b tr hok⟩
+
+example : alternatingSequence (α := Int) 6 2 = #[1, 1, 1, -1, 1, -1] ∧
+    extraColumns 6 2 10 = .ok #[0, 0, 10, 10, 11, 11] ∧
+    extraColumns 0 0 10 = .error (.panic "extra_columns: underflow") := ⟨by rfl, by rfl, rfl⟩
+
+/-- [S] `get_rows_mat_wf`: on a well-formed CSC matrix `get_rows_mat(A, col, rs..re)` does not panic
+and is `get_rows_subset` on the column's slice of `rowval` — the expression that the row-shifting
+loops of the model use. -/
+theorem get_rows_mat_wf (A : Csc α) (hA : CscWF A) (col : Nat) (hcol : col < A.n) (rs re : Nat) :
+    getRowsMat A col rs re =
+      .ok (getRowsSubset A.rowval (A.colptr.getD col 0) (A.colptr.getD (col + 1) 0) rs re) :=
+  getRowsMat_eq A hA col hcol rs re
+
+example (rs re : Nat) : getRowsMat exA 0 rs re = .ok (getRowsSubset #[0, 2, 5] 0 3 rs re) :=
+  get_rows_mat_wf exA exHyp.wf 0 (by decide) rs re
+
+/-- [S] `get_clique_by_index_parent`: on a valid tree the clique that
+`add_entries_with_sparsity_pattern` loads with `get_clique_by_index(sntree, get_clique_parent(i))`
+is `get_clique(j)` for the post-order index `j` of the parent of clique `i`. -/
+theorem get_clique_by_index_parent {t : SuperNodeTree} {n : Nat} (h : ValidTree t n) (i j : Nat)
+    (hi : i < t.nCliques) (hpar : t.IsParent i j) :
+    ∃ pi, t.getCliqueParent i = .ok pi ∧ getCliqueByIndex t pi = t.getClique j :=
+  h.getCliqueByIndex_parent i j hi hpar
+
+example : ∃ pi, exTreeV.getCliqueParent 0 = .ok pi ∧ getCliqueByIndex exTreeV pi = exTreeV.getClique 1 :=
+  get_clique_by_index_parent exTreeV_valid 0 1 (by decide) ⟨by decide, rfl⟩
+
+/-- [S] `standard_helpers`: `find_H_col_dimension` is the number of columns of the `H` that
+`find_standard_H_and_cones` builds, `decompose_with_cone` appends the identity block
+`row .. row + nvars` and the cone, and `decomp_reverse_standard` is: two products with `H`, then
+`z[ri] /= nnz` over exactly the rows / counts that `number_of_overlaps_in_rows(H)` returns (rows
+whose count of ones exceeds one). -/
+theorem standard_helpers [Add α] [Mul α] [Div α] [OfNat α 0] [OfNat α 1] [LT α] [DecidableLT α]
+    (ci : ChordalInfo) (h : StdH) (hok : ci.findStandardHAndCones = .ok h)
+    (HI : Array Nat) (cn : Array Cone) (cone : Cone) (row m : Nat) (oldS oldZ : Array α) :
+    ci.findHColDimension = .ok h.lenH ∧
+    decomposeWithCone HI cn cone row = (HI ++ (List.range' row cone.nvars).toArray, cn.push cone) ∧
+    decompReverseStandard h m oldS oldZ =
+      (if oldS.size < m ∨ oldZ.size < m then throw (.panic "slice") else do
+        let s ← hGemv m h.HI (oldS.extract m oldS.size)
+        let z ← hGemv m h.HI (oldZ.extract m oldZ.size)
+        let r ← numberOfOverlapsInRows (h.toCsc (α := α))
+        pure (s, divideRows z r.1 r.2)) :=
+  ⟨findHColDimension_of_stdH ci h hok, decomposeWithCone_eq HI cn cone row,
+    decompReverseStandard_eq_named h (stdH_size_acc ci h hok) m oldS oldZ⟩
+
+example : exStdCi.findHColDimension = .ok 7 ∧
+    numberOfOverlapsInRows (exStdH.toCsc (α := Int)) = .ok (#[3], #[2]) :=
+  ⟨(standard_helpers (α := Int) exStdCi exStdH exStd_ok #[] #[] (.zero 0) 0 0 #[] #[]).1, by rfl⟩
+
+/-- [S] `add_blocks_with_cone_ok`: `add_blocks_with_cone` returns iff the slices exist and the
+lengths agree, and then copies the block of `old_s`, `old_z` at `row_ptr` into the rows of the
+original cone and advances `row_ptr` by the cone's size. -/
+theorem add_blocks_with_cone_ok [OfNat α 0] (newS oldS newZ oldZ : Array α) (rs re : Nat) (cone : Cone)
+    (rowPtr : Nat) (r : Array α × Array α × Nat) :
+    addBlocksWithCone newS oldS newZ oldZ rs re cone rowPtr = .ok r ↔
+      (rs ≤ re ∧ re ≤ newS.size ∧ rowPtr + cone.nvars ≤ oldS.size ∧ re - rs = cone.nvars ∧
+        re ≤ newZ.size ∧ rowPtr + cone.nvars ≤ oldZ.size) ∧
+      r = (copyRange newS oldS rs rowPtr cone.nvars, copyRange newZ oldZ rs rowPtr cone.nvars,
+           rowPtr + cone.nvars) :=
+  addBlocksWithCone_ok_iff newS oldS newZ oldZ rs re cone rowPtr r
+
+example : addBlocksWithCone (α := Int) #[0, 0, 0] #[7, 8, 9] #[0, 0, 0] #[4, 5, 6] 1 3 (.nonneg 2) 1 =
+    .ok (#[0, 8, 9], #[0, 5, 6], 3) := by rfl
+
+/-- [S] `aggregate_mask`: `find_aggregate_sparsity_mask` does not panic when the stored rows of `A`
+are rows of `b`, returns one flag per row, and flags every stored row of `A` and every row with
+`b ≠ 0`. -/
+theorem aggregate_mask [BEq α] [OfNat α 0] (A : Csc α) (b : Array α)
+    (hrows : ∀ r ∈ A.rowval.toList, r < b.size) :
+    ∃ m, findAggregateSparsityMask A b = .ok m ∧ m.size = b.size ∧
+      (∀ r ∈ A.rowval.toList, m.getD r false = true) ∧
+      (∀ i, i < b.size → (b.getD i 0 == 0) = false → m.getD i false = true) := by
+  obtain ⟨m, h1, h2⟩ := findAggregateSparsityMask_ok A b hrows
+  exact ⟨m, h1, h2, findAggregateSparsityMask_marks A b m h1⟩
+
+example : ∃ m, findAggregateSparsityMask exA2 exb2 = .ok m ∧ m.size = 6 := by
+  obtain ⟨m, h, hs, _⟩ := aggregate_mask exA2 exb2 exNew_hyps.1
+  exact ⟨m, h, hs⟩
+
+/-- [S] `analysis_to_decomposition` (**`ChordalInfo::new` ⇒ `FromAnalysis`**, the closing link
+C17 → C18).  `find_graph` (AMD ordering, QDLDL's symbolic factorisation, `connect_graph`) is a
+parameter of the model; `FindGraphOK` is its contract — filled pattern, permutation, dimension of
+the mask, marked entries inside `L` — which C17's channel `hyp.analysis` evaluates on the real
+`find_graph` on every run.  Under it, for each of the three merge methods, every successful
+`ChordalInfo::new(A, b, cones)` returns a record with `init_dims = (A.n, A.m)`; when something was
+decomposed, `init_cones = cones`, every stored pattern is an analysis result for a PSD cone of
+`cones` (`FromAnalysis`, pattern entries of cone `c` = marked off-diagonal entries of the
+diagonal-forced slice of the aggregate sparsity mask), every pattern is consumed by the loops over
+the cones, the `orig_index` are strictly increasing indices of PSD cones, no stored pattern has a
+single clique. -/
+theorem analysis_to_decomposition [BEq α] [OfNat α 0]
+    (findGraph : Array Bool → MErr (LPat × Array Nat)) (hfg : FindGraphOK findGraph)
+    (A : Csc α) (b : Array α) (cones : Array Cone) (mm : String)
+    (hmm : mm = "none" ∨ mm = "parent_child" ∨ mm = "clique_graph")
+    (ci : ChordalInfo) (hnew : ChordalInfo.new findGraph A b cones mm = .ok ci) :
+    ∃ nzMask, findAggregateSparsityMask A b = .ok nzMask ∧
+      ci.initDims = (A.n, A.m) ∧
+      findSparsityPatterns findGraph A b cones mm = .ok ci.spatterns ∧
+      (ci.isDecomposed = false → ci.initCones = #[]) ∧
+      (ci.isDecomposed = true →
+        ci.initCones = cones ∧ FromAnalysis ci (coneEdges cones nzMask) ∧
+        (ci.layoutAt ci.initCones.size).1 = ci.spatterns.size) ∧
+      (∀ (j : Nat) (p : SPattern), ci.spatterns[j]? = some p →
+        p.origIndex < cones.size ∧ p.sntree.nCliques ≠ 1 ∧ ∃ d, cones[p.origIndex]? = some (.psd d)) ∧
+      (∀ (j1 j2 : Nat) (p1 p2 : SPattern), j1 < j2 → ci.spatterns[j1]? = some p1 →
+        ci.spatterns[j2]? = some p2 → p1.origIndex < p2.origIndex) :=
+  ChordalInfo.new_fromAnalysis findGraph hfg A b cones mm hmm ci hnew
+
+/-- [S] `compact_hyp_of_new`: the whole hypothesis bundle `CompactHyp` of the theorems about the
+compact transformation holds for the record returned by `ChordalInfo::new(A, b, cones)` as soon as
+the DATA are well formed (no hypothesis on the patterns or on coverage is left: the rows stored in
+`A` and the non-zeros of `b` are exactly what `find_aggregate_sparsity_mask` flags). -/
+theorem compact_hyp_of_new [BEq α] [OfNat α 0]
+    (findGraph : Array Bool → MErr (LPat × Array Nat)) (hfg : FindGraphOK findGraph)
+    (A : Csc α) (b : Array α) (cones : Array Cone) (mm : String)
+    (hmm : mm = "none" ∨ mm = "parent_child" ∨ mm = "clique_graph")
+    (ci : ChordalInfo) (hnew : ChordalInfo.new findGraph A b cones mm = .ok ci)
+    (hdec : ci.isDecomposed = true) (wf : CscWF A) (ncols : 0 < A.n)
+    (rowsA : ∀ slot, slot < A.colptr.getD A.n 0 →
+      ∃ c, c < ci.initCones.size ∧ ci.rs c ≤ A.rowval.getD slot 0 ∧ A.rowval.getD slot 0 < ci.rs c + ci.nv c)
+    (rowsB : ∀ slot, slot < (bIndOf b).size →
+      ∃ c, c < ci.initCones.size ∧ ci.rs c ≤ (bIndOf b).getD slot 0 ∧
+        (bIndOf b).getD slot 0 < ci.rs c + ci.nv c) :
+    CompactHyp ci A (bIndOf b) :=
+  ChordalInfo.new_compactHyp findGraph hfg A b cones mm hmm ci hnew hdec wf ncols rowsA rowsB
+
+/-- [S] `new_no_panic`: `ChordalInfo::new` does not panic when the stored rows of `A` are rows of
+`b`, the PSD cones fit into `b`, `find_graph` satisfies its contract and returns on the (non-dense,
+diagonal-forced) slices it is called on, and the merge method is one of the three. -/
+theorem new_no_panic [BEq α] [OfNat α 0]
+    (findGraph : Array Bool → MErr (LPat × Array Nat)) (hfg : FindGraphOK findGraph)
+    (A : Csc α) (b : Array α) (cones : Array Cone) (mm : String)
+    (hmm : mm = "none" ∨ mm = "parent_child" ∨ mm = "clique_graph")
+    (hrows : ∀ r ∈ A.rowval.toList, r < b.size)
+    (hfit : ∀ c dim, cones[c]? = some (.psd dim) →
+      (coneStarts cones).getD c 0 + triangularNumber dim ≤ b.size)
+    (htot : ∀ nzMask, findAggregateSparsityMask A b = .ok nzMask → ∀ c dim, cones[c]? = some (.psd dim) →
+      (forceDiag (nzMask.extract ((coneStarts cones).getD c 0)
+        ((coneStarts cones).getD c 0 + triangularNumber dim)) dim).all id = false →
+      ∃ L o, findGraph (forceDiag (nzMask.extract ((coneStarts cones).getD c 0)
+        ((coneStarts cones).getD c 0 + triangularNumber dim)) dim) = .ok (L, o)) :
+    ∃ ci, ChordalInfo.new findGraph A b cones mm = .ok ci :=
+  ChordalInfo.new_ok findGraph hfg A b cones mm hmm hrows hfit htot
+
+/-- non-vacuity of `analysis_to_decomposition` / `compact_hyp_of_new` / `new_no_panic`: one `3 × 3`
+PSD cone with the pattern of the path `0 – 1 – 2` (rows `(0,1)` and `(1,2)` of the packed triangle
+stored in `A`), `find_graph` = the table entry that the real `find_graph` returns for this mask:
+the contract holds, `ChordalInfo::new` returns, and (when its result is decomposed — it is: the
+driver evaluates the model to two cliques; the kernel cannot unfold the merge sort inside
+`SparsityPattern::new`) `CompactHyp` holds for the data -/
+example : FindGraphOK exFindGraph ∧
+    ∃ ci, ChordalInfo.new exFindGraph exA2 exb2 #[.psd 3] "none" = .ok ci ∧
+      ci.initDims = (1, 6) := by
+  obtain ⟨h1, h2, h3⟩ := exNew_hyps
+  obtain ⟨ci, hci⟩ := new_no_panic exFindGraph exFindGraph_ok exA2 exb2 #[.psd 3] "none"
+    (Or.inl rfl) h1 h2 h3
+  obtain ⟨_, _, hd, _⟩ := analysis_to_decomposition exFindGraph exFindGraph_ok exA2 exb2 #[.psd 3]
+    "none" (Or.inl rfl) ci hci
+  exact ⟨exFindGraph_ok, ci, hci, hd⟩
 
 end Clarabel.C18
